@@ -69,7 +69,7 @@ func rulesC01(e *Engine, r *Report) {
 	}
 	t.Run()
 	allowed := map[string]string{
-		"stage.(*Stage).putFileAway|os.MkdirAll|0":  "creates the parent directory of the delivered file",
+		"stage.(*Stage).putFileAway|os.MkdirAll|0":   "creates the parent directory of the delivered file",
 		"stage.(*Stage).putFileAway|fileutil.Move|1": "THE deliverer",
 		"fileutil.Move|os.Rename|1":                  "move into <dst>.lck, then <dst>.lck -> <dst>",
 		"fileutil.Move|os.Rename|0":                  "<dst>.lck -> <dst>",
